@@ -105,7 +105,9 @@ def group_scenarios(rng, tier):
     small = [("use", ["b", "a", "C", "a1"]), ("use", ["a::b as x", "a::b", "a::b as y", "a::a"]),
              ("use", ["z10", "z9", "z09", "Z"]), ("mod", ["b", "a1", "a01", "A"]),
              ("extern", ["b", "a", "c"]), ("use", ["std::a", "core::b", "crate::c", "alloc::d"]),
-             ("use", ["r#fn", "a", "_b", "B"]), ("mod", ["z9", "z10", "r#fn"])]
+             ("use", ["r#fn", "a", "_b", "B"]), ("mod", ["z9", "z10", "r#fn"]),
+             # several renames of ONE crate: ordered by the local names
+             ("extern", ["serde as zeta", "serde as alpha", "serde as mid", "other"])]
     for kind, names in small:
         perms = list(itertools.permutations(range(len(names))))
         if tier == "quick":
